@@ -37,11 +37,36 @@ Leaves(env, T, v) ==
 AnyLeaf(env, T, v, P(_, _)) ==
   LET ls == Leaves(env, T, v) IN \E j \in 1..Len(ls) : P(ls[j][1], ls[j][2])
 
-RtClasses == <<"OidArc2Ge40", "RealMinusZero">>
+RtClasses == <<"OidArc2Ge40", "RealMinusZero", "NamedBitsTrimmedBelowSize", "AbsentOptionalExtensibleChoice">>
+
+RECURSIVE AnyNode(_, _, _, _)
+\* does P hold at some SEQUENCE/SET node <<type, value>> inside v : T ?
+SeqNodes(env, T, v) == AnyNode(env, T, v, 0)
+AnyNode(env, T, v, dummy) ==
+  CASE T.k = "REF" -> AnyNode(env, env.types[T.name], v, dummy)
+    [] T.k \in {"SEQ", "SET"} ->
+         << <<T, v>> >> \o Concat([j \in 1..Len(AllMembers(T)) |->
+            LET m == AllMembers(T)[j] IN IF v[m.n].p THEN AnyNode(env, m.t, v[m.n].v, dummy) ELSE <<>>])
+    [] T.k = "CHOICE" ->
+         LET alts == AllAlts(T) IN AnyNode(env, alts[MemberIndex(alts, v.a)].t, v.v, dummy)
+    [] T.k \in {"SEQOF", "SETOF"} -> Concat([j \in 1..Len(v) |-> AnyNode(env, T.e, v[j], dummy)])
+    [] OTHER -> <<>>
 
 RtClassHolds(name, env, T, v, codec) ==
   CASE name = "OidArc2Ge40" -> AnyLeaf(env, T, v, LAMBDA t, x : t.k = "OID" /\ x[1] = 2 /\ x[2] >= 40)
     [] name = "RealMinusZero" -> AnyLeaf(env, T, v, LAMBDA t, x : t.k = "REAL" /\ x.c = "NZ")
+    [] name = "NamedBitsTrimmedBelowSize" ->
+         /\ codec = "der"
+         /\ AnyLeaf(env, T, v, LAMBDA t, x : t.k = "BITS" /\ t.nb # <<>> /\ t.sz.f = "R" /\ TrimBits(x).n < t.sz.lb)
+    [] name = "AbsentOptionalExtensibleChoice" ->
+         /\ codec \in {"ber", "der"}
+         /\ LET ns == SeqNodes(env, T, v) IN
+              \E j \in 1..Len(ns) :
+                 LET S == ns[j][1]  x == ns[j][2]  ms == AllMembers(S) IN
+                 \E h \in 1..Len(ms) :
+                    /\ ~x[ms[h].n].p
+                    /\ IsUntaggedChoice(env, ComponentType(env, S, h))
+                    /\ Base(env, ms[h].t).ext
 
 RtApplicable(env, T, v, codec) ==
   {RtClasses[j] : j \in {j \in 1..Len(RtClasses) : RtClassHolds(RtClasses[j], env, T, v, codec)}}
